@@ -249,3 +249,29 @@ def gen_pair(rng, nitems=None, nsteps=None):
     unit = "ps" if all(t % 1000 == 0 for t in times) and rng.random() < 0.6 else "fs"
     vcd = vcd_writer.render(rng, items, g.natoms, snap, steps, unit=unit)
     return ghw_writer.design_tokens(items, g.natoms, snap, steps), ghw, vcd
+
+
+def gen_triple(rng, nitems=None, nsteps=None):
+    """one design as GHW, VCD and FST (C12 / C10). Restrictions of gen_pair; FST needs at least one signal."""
+    from gen import vcd_writer, fst_writer
+    while True:
+        g = Gen(rng, alias_prob=0.1)
+        orig = g.rand_type
+
+        def rand_type(depth=0, orig=orig):
+            t = orig(depth)
+            while t[0] == "A" and t[4][0] != "R":
+                t = orig(depth)
+            return t
+        g.rand_type = rand_type
+        items = g.rand_items(nitems if nitems is not None else rng.choice([1, 3, 6, 10]))
+        if g.natoms > 0:
+            break
+    snap, steps = g.rand_wave(nsteps if nsteps is not None else rng.choice([0, 2, 6, 15]))
+    w = ghw_writer.Writer(rng, big_endian=rng.random() < 0.3, version=rng.choice([0, 1]))
+    ghw = w.serialise(items, g.natoms, g.kinds, snap, steps)
+    times = [snap[0]] + [t for t, _ in steps]
+    ps_ok = all(t % 1000 == 0 for t in times)
+    vcd = vcd_writer.render(rng, items, g.natoms, snap, steps, unit="ps" if ps_ok and rng.random() < 0.6 else "fs")
+    fst = fst_writer.render(rng, items, g.natoms, snap, steps, unit="ps" if ps_ok and rng.random() < 0.6 else "fs")
+    return ghw_writer.design_tokens(items, g.natoms, snap, steps), ghw, vcd, fst
